@@ -64,7 +64,7 @@ PROPS = {
                 rule="shapes: EVERY code-emitting alternative of the CURRENT assembler grammar x every spelling of its mnemonic table x sampled operands "
                      "(generated from the grammar on each run); L3 = real Preprocessor vs model (byte-identical lines); L4 = the same programs executed by the real "
                      "binary: the real DataParser / Interpreter / PrintParser judge every emitted line (any 'Internal Error' is a violation); non-trivial = accepted program"),
-    "C11": dict(modules=["Emu8086.Props.C11"], runs=[("l3", "spell"), ("l3", "shapes"), ("l3", "operands")], gen=["Arch", "ILiterals", "PPGrammar"],
+    "C11": dict(modules=["Emu8086.Props.C11"], runs=[("l3", "spell"), ("l3", "shapes"), ("l3", "operands"), ("l3", "roles")], gen=["Arch", "ILiterals", "PPGrammar"],
                 rule="spell: programs rendered from the grammar under two independent spelling choices (case of every keyword/register/mnemonic incl. synonyms, "
                      "radix / leading zeros / negative decimal with the same bit pattern / OFFSET of a label with that offset for every constant, amount and kind of "
                      "white space and line breaks): the real assembler must emit identical code and data lists for both (or refuse both with the same diagnostic) and "
@@ -86,15 +86,15 @@ PROPS = {
                 rule="seeded byte/token-level mutations of valid programs (delete / insert / replace / duplicate spans; alphabet incl. NUL, DEL, non-ASCII, NBSP), "
                      "size families (10^5 digits, 5000 lines, 70 000-character strings, macro chains), empty input, no final newline — run by the real binary under a "
                      "watchdog (exit 101 / signal / timeout is a violation) and compared with the model; L2 malformed lines against the interpreter in-process"),
-    "C16": dict(modules=["Emu8086.Props.C16"], runs=[("l4", "diag"), ("l4", "prompt"), ("l4", "run")], gen=["Arch", "ILiterals", "PPGrammar"],
+    "C16": dict(modules=["Emu8086.Props.C16"], runs=[("l4", "diag", {"VERIF_STRICT_OUT": "1"}), ("l4", "prompt", {"VERIF_STRICT_OUT": "1"}), ("l4", "run", {"VERIF_STRICT_OUT": "1"})], gen=["Arch", "ILiterals", "PPGrammar"],
                 rule="single-token corruptions at every token position of a valid program, error mutants with shifted lines / no trailing newline / comment lines, "
                      "stepping runs and prints/interrupts at first/middle/last lines and inside macros and procedures: line number, column and line text in the real "
                      "binary's messages must equal the model's (computed from the source map and byte offsets)"),
-    "C17": dict(modules=["Emu8086.Props.C17"], runs=[("l4", "prints"), ("l4", "prompt")], gen=["Arch", "ILiterals", "PPGrammar"],
+    "C17": dict(modules=["Emu8086.Props.C17"], runs=[("l4", "prints", {"VERIF_STRICT_OUT": "1"}), ("l4", "prompt", {"VERIF_STRICT_OUT": "1"})], gen=["Arch", "ILiterals", "PPGrammar"],
                 rule="random machine states established by generated programs x print reg / flags / mem with ranges of length 0/1/15/16/17/31/32/100, ending at "
                      "FFFFFh, backwards, beyond 2^20, DS-relative with DS up to FFFFh, constants in all radices; stdout compared byte-for-byte with the model; the same "
                      "commands typed at the prompt; state after printing compared (trace hook)"),
-    "C18": dict(modules=["Emu8086.Props.C18"], runs=[("l4", "ints")], gen=["Arch", "ILiterals", "PPGrammar"],
+    "C18": dict(modules=["Emu8086.Props.C18"], runs=[("l4", "ints", {"VERIF_STRICT_OUT": "1"})], gen=["Arch", "ILiterals", "PPGrammar"],
                 rule="INT 21h / 10h x AH in supported values and random others x buffers at random segments incl. FFFFh:FFF0h.. (wrap) x capacity 0/1/2/3/5/255 x "
                      "stdin families (empty, newline only, shorter, equal, longer than capacity, unterminated, CRLF, two lines): stdout, registers and memory after the "
                      "service vs the model"),
@@ -103,7 +103,7 @@ PROPS = {
                 rule="every L4 case is run 2-3 times in separate processes: outputs, traces and final states must be byte-identical (and equal to the deterministic "
                      "model), in particular programs with several simultaneous errors; L2: ONE Interpreter object processes all requests (valid and malformed lines "
                      "interleaved, thousands per run) and must agree with the stateless model on each"),
-    "C20": dict(modules=["Emu8086.Props.C20"], runs=[("l4", "prompt")], gen=["Arch", "ILiterals", "PPGrammar"],
+    "C20": dict(modules=["Emu8086.Props.C20"], runs=[("l4", "prompt", {"VERIF_STRICT_OUT": "1"})], gen=["Arch", "ILiterals", "PPGrammar"],
                 rule="terminating programs x stepping enabled by -i, by a POPF-set trap flag, or by INT 3 at random places x random prompt scripts (next in all "
                      "spellings, print commands, garbage, empty lines, quit, premature end of input incl. an unterminated last line): stdout, exit status, trace and "
                      "final state of the real binary vs the model"),
